@@ -239,7 +239,13 @@ class ClassParser(BaseParser):
             fields.update(parser.fields)
             # references the base has not resolved yet are pending for this class as well
             # (it may be used before its base ever is)
-            self.forward_refs.update(parser.forward_refs)
+            for key, (ref, constraints) in parser.forward_refs.items():
+                n, base_key = 0, key
+                while key in self.forward_refs and self.forward_refs[key][0] is not ref:
+                    # two bases may each hold a pending reference under the same name
+                    n += 1
+                    key = f"{base_key}#{n}"
+                self.forward_refs.setdefault(key, (ref, constraints))
             annotations.update(parser.annotations)
             exclude_vars.update(parser.exclude_vars)
             alias_map.update(parser.field_alias_map)
